@@ -67,7 +67,8 @@ func complete(c Cmd) Cmd {
 			out["agent"] = ""
 		}
 		if _, ok := out["rpathok"]; !ok {
-			out["rpathok"] = false
+			rp := out.str("rpath")
+			out["rpathok"] = rp == "r1.txt" || rp == "r2.txt" || rp == "sub/r3.txt"
 		}
 		if _, ok := out["newids"]; !ok {
 			out["newids"] = []string{}
